@@ -15,7 +15,7 @@ mkdir -p "$out"
 cd "$(dirname "$0")/.."
 VERIF_REPO="$wt" VERIF_BIN="$bin" VERIF_ONLY="$lc" VERIF_OUT="$out" ./check "$id" --tier "$tier" > "$out/run.txt" 2>&1
 rc=$?
-grep -E "^(VIOLATION|KNOWN-FINDING|HARNESS-PROBLEM|BUILD-FAILED|C[0-9][0-9]:|  clause=)" "$out/run.txt" | cut -c1-260 | head -12
+grep -aE "^(VIOLATION|KNOWN-FINDING|HARNESS-PROBLEM|BUILD-FAILED|C[0-9][0-9]:|  clause=)" "$out/run.txt" | cut -c1-260 | head -12
 echo "exit=$rc out=$out"
 git -C /repo worktree remove --force "$wt"
 exit $rc
